@@ -9,6 +9,10 @@ use std::sync::{Arc, Mutex};
 pub const ERASED: usize = 0;
 pub const TWIN: usize = 1;
 
+/// side of the implementor that ran last (set by `Core::enter`): lets the shared dispatch code
+/// apply, on the direct-call side, a conversion that crossing the boundary is documented to apply
+pub static LAST_SIDE: std::sync::atomic::AtomicUsize = std::sync::atomic::AtomicUsize::new(0);
+
 #[derive(Clone, Debug, PartialEq, Eq)]
 pub struct Entry {
     pub id: u32,
@@ -126,6 +130,7 @@ impl Core {
 
     /// Called first by every method of every implementor.
     pub fn enter(&self, method: &'static str, digest: u64, ptrs: &[(usize, usize)]) {
+        LAST_SIDE.store(self.side, Ordering::SeqCst);
         untracked(|| {
             if self.in_lib && !self.world.lib_loaded.load(Ordering::SeqCst) {
                 self.world.ran_after_unload.lock().unwrap().push(format!("method {} of instance {}", method, self.id));
